@@ -437,7 +437,7 @@ func c15TraceLine(work, line string, lineNo int, r *rng, maxCases int) {
 			}
 			static = jobj{"line": lineNo, "route": route, "ptf": g.PTF, "cappar": g.CAPPAR, "n": N, "azho": g.AZHO, "gw": hx(g.GW), "initgrw": hx(initGRW),
 				"hz": hz, "wb": hxs(g.W_Backup[:N]), "wmb": hxs(g.WMIN_Backup[:N]), "pb": hxs(g.PORGES_Backup[:N]), "wnb": hxs(g.WNOR_Backup[:N]),
-				"sand": g.BART[0][0] == 'S'}
+				"sand": g.BART[0][0] == 'S', "gwfrom": g.GROUNDWATERFROM.String()}
 			s2 := jobj{"k": "static"}
 			for k, v := range static {
 				s2[k] = v
@@ -480,7 +480,7 @@ func c15TraceLine(work, line string, lineNo int, r *rng, maxCases int) {
 				continue
 			}
 			h := horizonOf(i + 1)
-			if okLow && d.por[i] < 1 && route == "table" {
+			if okLow && d.por[i] < 1 && route == "table" && g.FKA[h] <= 0 {
 				// field capacity above pore volume on the table route: identified by the class of the table lookup
 				cls := fmt.Sprintf("%s:LD%d:corgclass%d:gwclass%d", strings.TrimSpace(g.BART[h]), g.LD[h], c15CorgClass(g.CGEHALT[h]), c15GwClass(g.GRW))
 				if initial { // Input ran Hydro with the level it read, Init moved the level afterwards without a new lookup
